@@ -263,3 +263,58 @@ Lemma alloc_dealloc_stale_entry :
     o_reg o1 = RAuto /\
     snd (fst (m_op c OpSweep o1)) = ORaise ValueError.
 Proof. intros T H. destruct T; try (exfalso; apply H; reflexivity); vm_compute; repeat split. Qed.
+
+(* ------------------------------------------------------------------ storage layout *)
+
+Lemma layout_ok : hdr_layout_ok = true.
+Proof. vm_compute. reflexivity. Qed.
+
+Lemma round_up_ge : forall w s, 0 < w -> s <= round_up w s.
+Proof.
+  intros w s Hw. unfold round_up.
+  pose proof (Nat.div_mod (s + w - 1) w ltac:(lia)) as E.
+  pose proof (Nat.mod_upper_bound (s + w - 1) w ltac:(lia)) as B.
+  rewrite Nat.mul_comm. lia.
+Qed.
+
+(* an object's s = size(type) bytes lie inside its block, behind its own header, and end before the next
+   header of the same block *)
+Lemma plain_fits : forall H s, plain_body H + s <= plain_block H s.
+Proof. intros. unfold plain_body, plain_block. lia. Qed.
+
+Lemma array_fits :
+  forall H w s n i, 0 < w -> i < n ->
+    array_head H w s i + H = array_body H w s i /\
+    array_body H w s i + s <= array_head H w s (i + 1) /\
+    array_head H w s (i + 1) <= array_block H w s n /\
+    (forall j, i < j -> array_body H w s i + s <= array_head H w s j).
+Proof.
+  intros H w s n i Hw Hi. pose proof (round_up_ge w s Hw) as R.
+  unfold array_head, array_body, array_block, array_step in *.
+  repeat split; nia.
+Qed.
+
+Lemma list_fits : forall H w s,
+  list_head w + H = list_body H w /\ list_body H w + s <= list_block H w s.
+Proof. intros. unfold list_head, list_body, list_block. lia. Qed.
+
+Lemma tree_fits : forall H w ks vs,
+  tree_khead w + H = tree_kbody H w /\
+  tree_kbody H w + ks <= tree_vhead H w ks /\
+  tree_vhead H w ks + H = tree_vbody H w ks /\
+  tree_vbody H w ks + vs <= tree_block H w ks vs.
+Proof. intros. unfold tree_khead, tree_kbody, tree_vhead, tree_vbody, tree_block. lia. Qed.
+
+Lemma table_fits :
+  forall H w ks vs n i, 0 < w -> i < n ->
+    table_khead H w ks vs i + H = table_kbody H w ks vs i /\
+    table_kbody H w ks vs i + ks <= table_vhead H w ks vs i /\
+    table_vhead H w ks vs i + H = table_vbody H w ks vs i /\
+    table_vbody H w ks vs i + vs <= table_step H w ks vs * (i + 1) /\
+    table_step H w ks vs * (i + 1) <= table_block H w ks vs n.
+Proof.
+  intros H w ks vs n i Hw Hi.
+  pose proof (round_up_ge w ks Hw) as Rk. pose proof (round_up_ge w vs Hw) as Rv.
+  unfold table_khead, table_kbody, table_vhead, table_vbody, table_block, table_step in *.
+  repeat split; nia.
+Qed.
